@@ -89,6 +89,16 @@ Theorem C18_close_stops_pump : forall cp sent ls l s', let s := reach cp sent ls
 Proof. exact close_stops_pump. Qed.
 Print Assumptions C18_close_stops_pump.
 
+(* close(<invalid code>) (label LCloseBad: ValueError, swallowed by the application, which
+   keeps receiving): no effect on the receiver -- the reader keeps running; the label is part
+   of every schedule, so all theorems above cover it. *)
+Theorem C18_rejected_close_is_noop : forall s s',
+  step true LCloseBad s = Some s' ->
+  s' = logr KClose EValueErr s /\ pump s' = pump s /\ ptask s' = ptask s /\ queue s' = queue s
+  /\ outst s' = outst s.
+Proof. exact rejected_close_is_noop. Qed.
+Print Assumptions C18_rejected_close_is_noop.
+
 (* Unbuffered mode (max_receive_queue = 0): the receiver is bypassed altogether. *)
 Theorem C18_passthrough : forall sent ls, let s := reach 0 sent ls in
   pump s = PNone /\ queue s = [] /\ flag s = false /\ ptask s = false.
